@@ -55,6 +55,8 @@ def run(prog, world, sem, rep):
     rep.rule("C17.c", "the forwarded share is balance(D) - keeper(D) of the same D: bSei share sent to Config.bsei_reward_contract, stSei "
              "share attached as funds of BondRewards to Config.hub_contract (nothing retained)", 2)
     rep.rule("C17.d", "the reward contract's UpdateGlobalIndex is emitted on every path, to Config.bsei_reward_contract, after the bSei-share send", 2)
+    rep.rule("C17.h", "each held coin is counted once: the reward totals of the swap computation are accumulated over the elements of one "
+             "query_all_balances(own address) answer (the bank lists each denom once), not over a configurable list", 1)
     rep.rule("C17.g", "swap computation roles: stSei share = total.multiply_ratio(stsei_total_bonded, stsei_total_bonded + bsei_total_bonded); "
              "the coin offered is in the denom of the side being sold and the asked denom is the other one; the stSei-side total "
              "accumulates only coins whose denom equals Config.stsei_reward_denom", 4)
@@ -160,18 +162,24 @@ def run(prog, world, sem, rep):
     ok_d = False
     detail = "anchor-lost: message list not found"
     if handler is not None:
-        ret = world.ret_expr(handler.body)
-        lists = find(ret, lambda x: x.op == "call" and x.info == "cosmwasm_std::Response::add_messages")
         seqs = []
-        for l in lists:
-            seqs.extend(push_sequences(world, l.args[1]))
+        n_exits = 0
+        for (bb, idx, kind, x) in sem.ret_sites(handler.be):
+            if kind != "ok" or bb not in handler.blocks:
+                continue
+            n_exits += 1
+            lists = find(x, lambda y: y.op == "call" and y.info == "cosmwasm_std::Response::add_messages")
+            if not lists:
+                seqs.append([])  # a success exit that emits no messages at all
+            for l in lists:
+                seqs.extend(push_sequences(world, l.args[1]))
         if seqs:
             ok_d = True
-            detail = "%d push sequence(s) checked" % len(seqs)
+            detail = "%d success exit(s), %d push sequence(s) checked" % (n_exits, len(seqs))
             for s in seqs:
                 kinds = [classify_msg(world, sem, handler.resolve(x)) for x in s]
                 if "index_update" not in kinds:
-                    ok_d, detail = False, "a path emits no UpdateGlobalIndex to the reward contract: %s" % kinds
+                    ok_d, detail = False, "a success path emits no UpdateGlobalIndex to the reward contract: %s" % kinds
                     break
                 if "bsei_share" in kinds and kinds.index("bsei_share") > kinds.index("index_update"):
                     ok_d, detail = False, "UpdateGlobalIndex is emitted before the bSei share transfer: %s" % kinds
@@ -267,6 +275,32 @@ def run(prog, world, sem, rep):
                     break
             break
     rep.ob("C17.g", "stSei-side total accumulates only Config.stsei_reward_denom coins", acc_ok, detail)
+    # C17.h
+    ok_h = False
+    det_h = "anchor-lost: accumulation of the reward totals not found"
+    tots = []
+    if tot.op == "bin" and tot.info == "Add":
+        for a in tot.args:
+            ai = world.ident(a)
+            tots.append(ai.args[0] if (ai.op == "bin" and ai.info == "Mul") else ai)
+    srcs_ok = []
+    for tv in tots:
+        adds = find(world.ident(tv), lambda x: x.op == "bin" and x.info == "Add" and x.site is not None and any(z.op == "rec" for z in x.args))
+        for a in adds:
+            amt = [z for z in a.args if z.op != "rec"][0]
+            n = world.norm(amt)
+            its = find(n, lambda y: y.op == "call" and y.info.endswith("Iterator::next"))
+            good = False
+            for it in its:
+                q = find(it, lambda y: y.op == "call" and y.info.endswith("QuerierWrapper::query_all_balances"))
+                if q and sem.label(q[0].args[1]) == ("self",):
+                    good = True
+            direct = find(n, lambda y: y.op == "call" and y.info.endswith("QuerierWrapper::query_balance"))
+            srcs_ok.append(good and not direct)
+    if srcs_ok:
+        ok_h = all(srcs_ok)
+        det_h = "%d accumulation site(s); all over the elements of query_all_balances(self): %s" % (len(srcs_ok), ok_h)
+    rep.ob("C17.h", "reward totals are accumulated over the bank's balance list", ok_h, det_h)
 
 
 def push_sequences(world, e, limit=64):
